@@ -5,7 +5,9 @@ from .util import call
 
 ID = 'C06'
 LEAN_MODULE = 'KernProofs.C06'
-THEOREMS = ['KM.C06.C06_export_rows', 'KM.C06.C06_row_is_selected_cells', 'KM.C06.C06_row_projection', 'KM.C06.C06_null_rows_absorbed', 'KM.C06.C06_selection_by_header', 'KM.C06.C06_spine_types_empty', 'KM.rowOfStage_eq', 'KM.exportString_noRange', 'KM.mapM_filterMap_sel']
+EXTRA_MODULES = ['KernProofs.C06Doc']
+THEOREMS = ['KM.C06.C06_export_rows', 'KM.C06.C06_row_is_selected_cells', 'KM.C06.C06_row_projection', 'KM.C06.C06_null_rows_absorbed', 'KM.C06.C06_selection_by_header', 'KM.C06.C06_spine_types_empty', 'KM.rowOfStage_eq', 'KM.exportString_noRange', 'KM.mapM_filterMap_sel',
+            'KM.C06D.C06_spine_types_of_text', 'KM.C06D.C06_spine_types_default']
 FINGERPRINTS = ['exporter.Exporter.export_string', 'exporter.Exporter.append_row', 'exporter.Exporter.compute_header_type',
                 'exporter.Exporter.get_spine_types', 'importer.Importer', 'generic.Generic']
 RULE = ('generated documents with nested splits and joins (quick 25 / thorough 250) and documents whose operator records shift the ownership of columns while keeping their number (quick 10 / thorough 100) x EVERY subset of spine ids and EVERY subset of the occurring '
